@@ -245,12 +245,13 @@ class Builder:
             nb = {'if': 1, 'ifelse': 1, 'ifelif': 2, 'ifelifelse': 2}[kind]
             has_else = kind in ('ifelse', 'ifelifelse')
             branches = []
+            empty = int(flavor[1:]) if flavor.startswith('e') else -1        # flavour 'e<k>': branch k has an empty body
             for i in range(nb):
-                b = [self.log()] + (inner if pos == i else [])
+                b = ([] if empty == i else [self.log()]) + (inner if pos == i else [])
                 branches.append((('cc',), b))
             else_body = None
             if has_else:
-                else_body = [self.log()] + (inner if pos == nb else [])
+                else_body = ([] if empty == nb else [self.log()]) + (inner if pos == nb else [])
             return ('if', branches, else_body)
         body = [self.log()]
         if 'b' in flavor:
@@ -325,7 +326,7 @@ def build(spec, scope='global', tail_return=False):
 
 
 def spec_name(spec):
-    return '_'.join(f"{k}{'' if f == 'n' else f}{p if positions(k) > 1 else ''}" for k, f, p in spec)
+    return '_'.join(f"{k}{'' if f == 'n' else f}{p if positions(k) > 1 and not f.startswith('e') else ''}" for k, f, p in spec)
 
 
 def has_while_continue(body):
